@@ -293,6 +293,20 @@ pub fn replay_extra(prop: &str, extra: &serde_json::Value) -> Vec<String> {
         }
         return vec![];
     }
+    if let Some(r) = extra.get("ask_end_race") {
+        let cap = r["cap"].as_u64().unwrap_or(8) as usize;
+        let askers = r["askers"].as_u64().unwrap_or(3) as usize;
+        let cause = r["cause"].as_u64().unwrap_or(0) as u8;
+        let blocking = r["blocking"].as_bool().unwrap_or(true);
+        let rt = tokio::runtime::Builder::new_multi_thread().worker_threads(4).enable_time().build().expect("runtime");
+        for i in 0..20000u32 {
+            let (hung, _) = ask_end_race_round(&rt, cap, askers, cause, blocking, i % 400);
+            if hung > 0 {
+                return vec![format!("round {i}: {hung} of {askers} asks never returned after the actor (capacity {cap}) ended")];
+            }
+        }
+        return vec![];
+    }
     if let Some(t) = extra.get("tape") {
         let tape: Vec<u32> = t.as_array().map(|a| a.iter().map(|x| x.as_u64().unwrap_or(0) as u32).collect()).unwrap_or_default();
         let mut part = Part::default();
@@ -339,4 +353,118 @@ fn replay_capseq(tape: &[u32]) -> Vec<String> {
         errs.push("spawn_with_mailbox_capacity(_, 0) did not panic".into());
     }
     errs
+}
+
+// ---------------------------------------------------------------------------------------------
+// C03: an ask racing with the end of the actor (real threads)
+// ---------------------------------------------------------------------------------------------
+/// One round: `askers` threads / tasks issue one ask each at (almost) the moment the actor ends by
+/// `cause`; every one of them must return (Ok or Err) - none may wait forever. Returns the number
+/// of askers that had not returned 3 s after the actor's JoinHandle resolved.
+pub fn ask_end_race_round(rt: &tokio::runtime::Runtime, cap: usize, askers: usize, cause: u8, blocking: bool, jitter: u32) -> (usize, usize) {
+    use crate::actor::{MsgA, SimActor, World};
+    use crate::scenario::*;
+    use crate::trace::{Clock, Recorder};
+    use std::sync::mpsc::channel;
+    use std::time::Duration;
+    let rec = Recorder::new(Clock::Real(std::time::Instant::now()), false);
+    let world = std::sync::Arc::new(World { rec, specs: vec![ActorSpec { cap: cap as u32, ..ActorSpec::default() }], peers: std::sync::Mutex::new(vec![None]), us_per_ms: 1000 });
+    let (r, jh) = {
+        let _g = rt.enter();
+        rsactor::spawn_with_mailbox_capacity::<SimActor>((0, world.clone()), cap)
+    };
+    let mk = |id: u32, out: Out| Msg { id, ty: Ty::A, steps: vec![], out, job: None };
+    let (tx, rx) = channel::<usize>();
+    for k in 0..askers {
+        let r2 = r.clone();
+        let tx2 = tx.clone();
+        let m = mk(10 + k as u32, Out::Ok);
+        let spin = (k as u32 * 40 + jitter) % 200;
+        if blocking {
+            std::thread::spawn(move || {
+                for _ in 0..spin {
+                    std::hint::spin_loop();
+                }
+                let _ = r2.blocking_ask(MsgA(m), None);
+                let _ = tx2.send(k);
+            });
+        } else {
+            rt.spawn(async move {
+                for _ in 0..spin {
+                    std::hint::spin_loop();
+                }
+                let _ = r2.ask(MsgA(m)).await;
+                let _ = tx2.send(k);
+            });
+        }
+    }
+    drop(tx);
+    // end the actor
+    rt.block_on(async {
+        match cause % 4 {
+            0 => {
+                let _ = r.tell(MsgA(mk(1, Out::Panic))).await;
+            }
+            1 => {
+                let _ = r.stop().await;
+            }
+            2 => {
+                let _ = r.kill();
+            }
+            _ => {}
+        }
+    });
+    drop(r);
+    let joined = rt.block_on(async { tokio::time::timeout(Duration::from_secs(10), jh).await.is_ok() });
+    let mut returned = 0;
+    let deadline = std::time::Instant::now() + Duration::from_secs(3);
+    while returned < askers {
+        let left = deadline.saturating_duration_since(std::time::Instant::now());
+        match rx.recv_timeout(left) {
+            Ok(_) => returned += 1,
+            Err(_) => break,
+        }
+    }
+    (if joined { askers - returned } else { 0 }, returned)
+}
+
+pub fn c03_race(seed: u64, rounds: u32, replay_out: &str, part: &mut Part) -> i32 {
+    let mut x = seed.wrapping_mul(0x9E3779B97F4A7C15) | 1;
+    let mut next = |n: u64| {
+        x ^= x << 13;
+        x ^= x >> 7;
+        x ^= x << 17;
+        (x >> 11) % n
+    };
+    crate::trace::set_current(None);
+    let rt = tokio::runtime::Builder::new_multi_thread().worker_threads(4).enable_time().build().expect("runtime");
+    for _ in 0..rounds {
+        let cap = [1usize, 2, 8, 32][next(4) as usize];
+        let askers = 1 + next(4) as usize;
+        let cause = next(4) as u8;
+        let blocking = next(2) == 0;
+        let jitter = next(400) as u32;
+        let (hung, returned) = ask_end_race_round(&rt, cap, askers, cause, blocking, jitter);
+        part.evaluations += 1;
+        let key = format!("race:cap{cap}:n{askers}:cause{cause}:{}", if blocking { "blocking" } else { "async" });
+        if !part.nontrivial_hashes.contains(&key) {
+            part.nontrivial_hashes.push(key);
+        }
+        *part.labels.entry("ask_end_race_rounds".into()).or_default() += 1;
+        *part.labels.entry("ask_end_race_askers_returned".into()).or_default() += returned as u64;
+        if part.samples.len() < 2 {
+            let cause_name = ["handler panic", "stop", "kill", "last drop"][cause as usize % 4];
+            part.samples.push(serde_json::json!({"ask_end_race": {"capacity": cap, "askers": askers, "cause": cause_name, "blocking": blocking, "returned": returned}}));
+        }
+        if hung > 0 {
+            let cause_s = ["handler panic", "stop()", "kill()", "drop of the last reference"][cause as usize % 4];
+            let detail = format!("{hung} of {askers} {} ask(s) issued while the actor (capacity {cap}) was ending by {cause_s} had not returned 3 s after its JoinHandle resolved", if blocking { "blocking_ask" } else { "async" });
+            let path = write_replay(replay_out, "C03", "ask-hangs-on-ended-actor-race", &detail, serde_json::json!({"ask_end_race": {"cap": cap, "askers": askers, "cause": cause, "blocking": blocking}}));
+            println!("VIOLATION property=C03 replay={path}");
+            println!("  kind=ask-hangs-on-ended-actor-race detail={detail}");
+            part.violations.push(serde_json::json!({"kind": "ask-hangs-on-ended-actor-race", "detail": detail, "replay": path}));
+            return 1;
+        }
+    }
+    0
 }
